@@ -252,7 +252,9 @@ where
             let f = &f;
             let merged = &merged;
             std::thread::Builder::new()
-                .stack_size(64 << 20)
+                // 64 MiB by default (the harness' own recursion must never be the limit); the C03 children ask for the 8 MiB
+                // of an ordinary main thread, so that unbounded recursion in the library is seen as what it is
+                .stack_size(std::env::var("VERIF_STACK_MB").ok().and_then(|v| v.parse::<usize>().ok()).unwrap_or(64) << 20)
                 .spawn_scoped(s, move || {
                     let mut r = Report::new();
                     let res = std::panic::catch_unwind(std::panic::AssertUnwindSafe(|| f(w, n, &mut r)));
